@@ -80,7 +80,7 @@ func (g *c14gen) psList(movement bool) *PSList {
 	defer func() { g.depth-- }()
 	ps := &PSList{Var: rapid.SampledFrom([]string{"V", "W"}).Draw(t, "psvar")}
 	keys := rapid.Permutation([]string{"A", "B", "1", "_", "0x2", "02"}).Draw(t, "pskeys") // (numeric keys are compared as written)
-	nk := rapid.IntRange(1, 4).Draw(t, "npskeys")
+	nk := rapid.SampledFrom([]int{0, 1, 1, 2, 2, 3, 4}).Draw(t, "npskeys") // (no case at all: nothing matches, so the program is rejected)
 	keys = keys[:nk]
 	if g.depth > 1 && g.nestedFallback {
 		// a nested poryswitch always has a fallback: what happens to a nested poryswitch
